@@ -683,11 +683,26 @@ Proof. simpl. destruct (String.eqb n' n) eqn:E; [|discriminate]. apply String.eq
 (* The main theorems in the form the check evaluates: whenever the
    implementation's observable equals the model's, the property's conclusion
    holds on it. *)
+Lemma closure_session_b c o w :
+  origin_wire_ok o w = true -> in_closure_session c o w = true -> dy_session_b c o w = true.
+Proof.
+  destruct o as [c' t0 a | arr c' t0 tr | ], w as [t|]; simpl; intros H1 H2; try discriminate H1; try exact H2; try exact H1.
+  rewrite H1. exact H2.
+Qed.
+Lemma closure_tracking_b c o w :
+  origin_wire_ok o w = true -> in_closure_tracking c o w = true -> dy_tracking_b c o w = true.
+Proof.
+  destruct o as [c' t0 a | arr c' t0 tr | ], w as [t|]; simpl; intros H1 H2; try discriminate H1; try exact H2; try exact H1.
+  rewrite H1. exact H2.
+Qed.
+
 Theorem deccase_model_satisfies_spec d : deccase_agree d = true -> deccase_spec d = true.
 Proof.
-  unfold deccase_agree, deccase_spec. destruct (dc_session d) eqn:Ek.
+  unfold deccase_agree, deccase_spec. intro H. apply andb_true_iff in H; destruct H as [Horg H]. revert H.
+  destruct (dc_session d) eqn:Ek.
   - set (c := dc_codec d). intro H. apply andb_true_iff in H; destruct H as [_ H].
-    destruct (dy_session_b c (dc_origin d) (dc_wire d)) eqn:Edy; [|reflexivity].
+    destruct (in_closure_session c (dc_origin d) (dc_wire d)) eqn:Ecl; [|reflexivity].
+    pose proof (closure_session_b c _ _ Horg Ecl) as Edy.
     destruct (dc_ran d) eqn:Er; [|reflexivity]. simpl.
     destruct (require_account _ c (dc_now d) _) as [cl|] eqn:Eg; [|discriminate H].
     apply gate_runs_iff in Eg. destruct Eg as (w & Hj & Hd).
@@ -717,7 +732,8 @@ Proof.
       * rewrite session_reject_key in Hd; [discriminate|]. intro G. apply key_eqb_eq in G. congruence.
       * rewrite session_reject_altered in Hd; [discriminate | assumption].
   - set (c := dc_codec d). intro H. apply andb_true_iff in H; destruct H as [_ H].
-    destruct (dy_tracking_b c (dc_origin d) (dc_wire d)) eqn:Edy; [|reflexivity].
+    destruct (in_closure_tracking c (dc_origin d) (dc_wire d)) eqn:Ecl; [|reflexivity].
+    pose proof (closure_tracking_b c _ _ Horg Ecl) as Edy.
     destruct (dc_ran d) eqn:Er; [|reflexivity]. simpl.
     destruct (decode_tracking c (dc_now d) (dc_wire d)) as [got|] eqn:Hd; [|discriminate H].
     apply andb_true_iff in H; destruct H as [H Hu]. apply andb_true_iff in H; destruct H as [H Hi].
@@ -762,8 +778,10 @@ Theorem mintcase_model_satisfies_spec m : mintcase_agree m = true -> mintcase_sp
 Proof.
   unfold mintcase_agree, mintcase_spec, mint_model. intro H. apply wire_eqb_eq in H. rewrite <- H.
   destruct (mi_what m); simpl.
-  - rewrite String.eqb_refl. apply attrs_exact_b_sorted.
-  - rewrite !String.eqb_refl. reflexivity.
+  - rewrite String.eqb_refl, attrs_exact_b_sorted. simpl.
+    assert (G : forall o, optZ_eq o o = true) by (intro o; apply optZ_eq_eq; reflexivity).
+    rewrite !G. reflexivity.
+  - rewrite !String.eqb_refl, !Z.eqb_refl. reflexivity.
 Qed.
 
 Lemma mem_str_existsb v vs : mem_str v vs = existsb (fun x => String.eqb x v) vs.
